@@ -179,8 +179,11 @@ def cmp_real(a, b, path="v", exact=False):
     """Compare two real-side pytrees (replica agreement)."""
     import jax.tree_util as jtu
 
-    la = jtu.tree_leaves(a)
-    lb = jtu.tree_leaves(b)
+    try:
+        la = jtu.tree_leaves(a)
+        lb = jtu.tree_leaves(b)
+    except Exception as e:  # a value that cannot be flattened (known finding KF05)
+        return ["%s: cannot be flattened: %s: %s" % (path, type(e).__name__, str(e)[:200])]
     if len(la) != len(lb):
         return ["%s: %d vs %d leaves" % (path, len(la), len(lb))]
     out = []
